@@ -304,6 +304,7 @@ impl<'input> GrmtoolsSectionParser<'input> {
 
                         loop {
                             j = self.parse_ws(j);
+                            let elem_pos = j;
                             if let Some(end_pos) = self.lookahead_is("]", j) {
                                 return Ok((
                                     Setting::Array(
@@ -320,6 +321,14 @@ impl<'input> GrmtoolsSectionParser<'input> {
                             }
                             if let Some(k) = self.lookahead_is(",", j) {
                                 j = k
+                            }
+                            if j == elem_pos {
+                                // Neither an element, nor a ',', nor the closing ']': without
+                                // this we would look at the same position forever.
+                                return Err(HeaderError {
+                                    kind: HeaderErrorKind::ExpectedToken(']'),
+                                    locations: vec![Span::new(j, j)],
+                                });
                             }
                         }
                     } else {
